@@ -14,7 +14,8 @@ type Reply struct {
 	Src     netip.AddrPort // source attached by the protocol (zero if none)
 	Tag     Tag
 	Err     error // protocol or payload decode error
-	Len     int
+	Len     int   // wire length
+	PLen    int   // payload length after removing the protocol's framing (valid when the protocol decode succeeded)
 }
 
 // Client is one harness client session: a codec plus the sockets it has used.
@@ -87,6 +88,7 @@ func (c *Client) recvLoop(idx int, s *net.UDPConn) {
 			r.Err = err
 		} else {
 			r.Src = netip.AddrPortFrom(src.Addr().Unmap(), src.Port())
+			r.PLen = len(payload)
 			r.Tag, r.Err = DecodePayload(payload)
 		}
 		c.mu.Lock()
@@ -126,12 +128,22 @@ func (c *Client) Send(seq uint32, dest int, fill int) error {
 // Burst packs one datagram per entry of dests first and then writes them back to back, so that they
 // reach the relay faster than it forwards them (queues and sendmmsg batches form).
 func (c *Client) Burst(dests []int, fill int) {
+	fills := make([]int, len(dests))
+	for i := range fills {
+		fills[i] = fill
+	}
+	c.BurstFills(dests, fills)
+}
+
+// BurstFills is Burst with one filler length per datagram (mixed sizes in one batch).
+func (c *Client) BurstFills(dests []int, fills []int) {
 	pkts := make([][]byte, 0, len(dests))
 	c.mu.Lock()
 	idx := len(c.socks) - 1
 	s := c.socks[idx]
 	c.mu.Unlock()
-	for _, dest := range dests {
+	for i, dest := range dests {
+		fill := fills[i]
 		seq := c.NextSeq()
 		tag := Tag{Kind: KindRequest, Scenario: c.world.Scenario, Session: c.ID, Seq: seq, Target: uint16(dest), Responder: NoResponder, Fill: uint16(fill)}
 		pkt, err := c.Codec.Pack(c.world.DestAddr(dest), EncodePayload(nil, tag))
